@@ -9,7 +9,7 @@
 From ZK Require Import Cl ClArith ClSig ClMore ClGroup ClBoudot ModelLemmas ClSpok ClSpok2 ClSpok3.
 From ZK Require Import ClTies.
 From ZK Require Import ClConsts ClExample.
-From ZK Require Import ClSound ClSound2 ClSound3.
+From ZK Require Import ClSound ClSound2 ClSound3 ClCanon.
 From Coq Require Import List. Import ListNotations.
 
 Theorem C15_spok_accepts_ties_Ce :
@@ -458,3 +458,15 @@ exists dA dA' : list Z,
       HH n ck ih (sp_s9 p - sp_s9 p'))
      (gp n (c_value (sp_Ce p)) Cei dc)))%Z).
 Print Assumptions C15_nisp5_special_soundness.
+
+(* fix F19: an accepted signature proof carries canonical residues (C + N, C - N, - C are not further encodings of the same proof) *)
+Theorem C15_nisp5_accepts_canonical :
+  forall p ck pk bases rmsgs U nsm,
+  nisp5_verify p ck pk bases rmsgs U nsm = Ok true ->
+  Forall (fun c => (0 <= c_value c < pk_N pk)%Z) [sp_Cx p; sp_Cv p; sp_Cw p; sp_Ce p].
+Proof. exact nisp5_accepts_canonical. Qed.
+Check (C15_nisp5_accepts_canonical :
+  forall p ck pk bases rmsgs U nsm,
+  nisp5_verify p ck pk bases rmsgs U nsm = Ok true ->
+  Forall (fun c => (0 <= c_value c < pk_N pk)%Z) [sp_Cx p; sp_Cv p; sp_Cw p; sp_Ce p]).
+Print Assumptions C15_nisp5_accepts_canonical.
